@@ -113,6 +113,9 @@ def run_session(scn, sched, keep_sim=True, max_decisions=None, extra_setup=None)
               max_time=sched.get('max_time', 1e7),
               steps_after_fault=sched.get('steps_after_fault'),
               interrupt_on_hang='server' if sched.get('interrupt_on_hang') else None)
+    import os as _os
+    sim.trace_root = _os.path.join(_os.path.dirname(_os.path.abspath(
+        mods['bridge_env'].__file__)), '')
     ncfg = sched.get('net', {})
     netw = net.Network(net.NetConfig(nrng, ncfg.get('chunk', 'whole'),
                                      ncfg.get('latency', 'const'),
